@@ -567,10 +567,16 @@ def get_bs_cached(cols, basis_dir=None, legendre_orders=[0, 2],
     basis_name = "linbasex_basis_{}_{}_{}_{}_{}.npy".format(cols, los, pas,
                                                             radial_step, clip)
 
-    _los = los
-    _pas = pas
-    _radial_step = radial_step
-    _clip = clip
+    def remember(basis):
+        # (the parameters are remembered together with the basis itself, after
+        #  loading or generating it succeeded)
+        global _basis, _los, _pas, _radial_step, _clip
+        _basis = basis
+        _los = los
+        _pas = pas
+        _radial_step = radial_step
+        _clip = clip
+
     if basis_dir == '':
         basis_dir = abel.transform.get_basis_dir(make=True)
     if basis_dir is not None:
@@ -578,16 +584,16 @@ def get_bs_cached(cols, basis_dir=None, legendre_orders=[0, 2],
         if os.path.exists(path_to_basis_file):
             if verbose:
                 print('loading {} ...'.format(path_to_basis_file))
-            _basis = np.load(path_to_basis_file)
+            remember(np.load(path_to_basis_file))
             return _basis
 
     if verbose:
         print("A suitable basis for linbasex was not found.\n"
               "A new basis will be generated.")
 
-    _basis = _bs_linbasex(cols, proj_angles=proj_angles,
-                     legendre_orders=legendre_orders, radial_step=radial_step,
-                     clip=clip)
+    remember(_bs_linbasex(cols, proj_angles=proj_angles,
+                          legendre_orders=legendre_orders,
+                          radial_step=radial_step, clip=clip))
 
     if basis_dir is not None:
         path_to_basis_file = os.path.join(basis_dir, basis_name)
